@@ -78,8 +78,18 @@ def build(d, ctor_hint=None):
                 args.append(v)
         return fn(*args)
     if isinstance(d, dict) and "rec" in d:
-        from ngo.utils.ast import Predicate
+        from ngo.utils.ast import AnnotatedPredicate, Predicate, SignedPredicate
 
         if d["rec"] == "Predicate":
             return Predicate(ident(d["name"]), d["arity"])
+        if d["rec"] == "SignedPredicate":
+            return SignedPredicate(getattr(A.Sign, d["sign"]), build(d["pred"]))
+        if d["rec"] == "Mapping":
+            from ngo.cleanup import Mapping
+
+            return Mapping(build(d["head_pred"]), build(d["body_pred"]), tuple(x for x in d["var_map"] if x != "..."))
+        if d["rec"] == "AnnotatedPredicate":
+            return AnnotatedPredicate(build(d["pred"]), tuple(x for x in d["annotated_positions"] if x != "..."))
+    if isinstance(d, dict) and "set" in d:
+        return set(build(x) for x in d["set"])
     return d
